@@ -233,6 +233,11 @@ func c01(c *Ctx) (*report.Result, error) {
 	}
 	if f := resolve(c, res, "O1.3", anchor{"proxy", "*proxyStreamSender", "recvAck"}); f != nil {
 		checkRecvAckDiscard(c, res, f)
+		res.RuleDoc["O1.5"] = "an acknowledgement handed to a source shard's receiver is a fresh object: nothing reachable from it is written after the hand-over (the receiver reads it later, from another goroutine)"
+		checkNoWriteAfterHandover(c, res, "O1.5", f, "forwarded ack")
+	}
+	if f := resolve(c, res, "O1.5", anchor{"proxy", "*intraProxyStreamSender", "recvAck"}); f != nil {
+		checkNoWriteAfterHandover(c, res, "O1.5", f, "forwarded ack")
 	}
 	if f := resolve(c, res, "O1.4", anchor{"proxy", "*proxyStreamReceiver", "recvReplicationMessages"}); f != nil {
 		checkWatermarkBroadcast(c, res, f)
@@ -682,4 +687,87 @@ func usedAsDone(f *ssa.Function, m ssa.Value) bool {
 		}
 	}
 	return false
+}
+
+// ---------------------------------------------------------------------------------------------
+// ownership after hand-over
+
+// handedOverAllocs collects the heap objects reachable from a pointer argument: the Alloc it points to
+// and every Alloc stored (directly or through nested literals) into its fields.
+func handedOverAllocs(v ssa.Value, out map[*ssa.Alloc]bool, depth int) {
+	if depth > 6 || v == nil {
+		return
+	}
+	v = flow.Strip(flow.ResolveLoad(v))
+	switch x := v.(type) {
+	case *ssa.Alloc:
+		if out[x] {
+			return
+		}
+		out[x] = true
+		for _, r := range *x.Referrers() {
+			switch y := r.(type) {
+			case *ssa.FieldAddr:
+				for _, rr := range *y.Referrers() {
+					if st, ok := rr.(*ssa.Store); ok && st.Addr == ssa.Value(y) {
+						handedOverAllocs(st.Val, out, depth+1)
+					}
+				}
+			case *ssa.Store:
+				if y.Addr == ssa.Value(x) {
+					handedOverAllocs(y.Val, out, depth+1)
+				}
+			}
+		}
+	case *ssa.UnOp:
+		handedOverAllocs(x.X, out, depth+1)
+	case *ssa.MakeInterface:
+		handedOverAllocs(x.X, out, depth+1)
+	case *ssa.Phi:
+		for _, e := range x.Edges {
+			handedOverAllocs(e, out, depth+1)
+		}
+	}
+}
+
+// checkNoWriteAfterHandover: an object handed to another goroutine (through DeliverAck/DeliverMessages
+// or a channel send) must not be written on any path after the hand-over, unless it is re-allocated
+// first (a fresh object per delivery).
+func checkNoWriteAfterHandover(c *Ctx, res *report.Result, rule string, f *ssa.Function, what string) {
+	n := 0
+	for _, g := range append([]*ssa.Function{f}, flow.AnonFuncsDeep(f)...) {
+		for _, call := range flow.Calls(g) {
+			cc := call.Common()
+			if !cc.IsInvoke() || (cc.Method.Name() != "DeliverAckToShardOwner" && cc.Method.Name() != "DeliverMessagesToShardOwner") {
+				continue
+			}
+			n++
+			objs := map[*ssa.Alloc]bool{}
+			handedOverAllocs(cc.Args[1], objs, 0)
+			bad := ""
+			for al := range objs {
+				if al.Parent() != g {
+					continue
+				}
+				for _, r := range *al.Referrers() {
+					fa, ok := r.(*ssa.FieldAddr)
+					if !ok {
+						continue
+					}
+					for _, rr := range *fa.Referrers() {
+						st, ok := rr.(*ssa.Store)
+						if !ok || st.Addr != ssa.Value(fa) {
+							continue
+						}
+						p := flow.FindPath(flow.After(call), func(x ssa.Instruction) bool { return x == ssa.Instruction(st) }, func(x ssa.Instruction) bool { return x == ssa.Instruction(al) }, nil)
+						if p.Found {
+							bad = fmt.Sprintf("field %s of an object allocated at %s is written at %s after the object was handed over", flow.FieldName(fa.X.Type(), fa.Field), instrPos(c.Prog, al), instrPos(c.Prog, st))
+						}
+					}
+				}
+			}
+			res.Check(bad == "", rule, fmt.Sprintf("%s: %s #%d is a fresh object per delivery", shortFn(g), what, n), instrPos(c.Prog, call), "no store into the handed-over object graph is reachable after the hand-over without re-allocating it",
+				"the receiver goroutine dequeues the value later and reads through the shared pointer: "+bad+" - it can observe another delivery's value")
+		}
+	}
 }
